@@ -3,6 +3,7 @@ C19 — Address and port text forms are parsed exactly or rejected.
 Property statements (helper lemmas: Lemmas/Net.lean).
 -/
 import PistacheModel.Lemmas.Net
+import PistacheModel.Generated.Tables
 
 namespace Pistache.Net.Props
 open Pistache Pistache.Stream Pistache.Num Pistache.Net
@@ -189,6 +190,10 @@ theorem ipv4_with_port (a b c d p : Nat) (ha : a < 256) (hb : b < 256) (hc : c <
   cases hfb : findByte 91 (ntop4 a b c d ++ [58] ++ natToDec p) <;>
     simp only [htake, hdrop, hpne, Bool.false_eq_true, if_false, hport, hstar, hloc, hcstr, hemp,
       pton4_canonical a b c d ha hb hc hd]
+
+/-- the default port of the source (`Const::HTTP_STANDARD_PORT`, regenerated from include/pistache/config.h on every run) is
+    the 80 the property and the model speak of -/
+theorem default_port_is_source_constant : Gen.httpStandardPort = 80 := by decide
 
 /-- T6: a dotted quad without a port gets port 80. -/
 theorem ipv4_default_port (a b c d : Nat) (ha : a < 256) (hb : b < 256) (hc : c < 256) (hd : d < 256) :
